@@ -31,7 +31,7 @@ struct Grammar {
         return (int)tok.size() - 1;
     }
     Grammar() {
-        for (const char *l : {"x", "{var:a}", "{var:v}", "{var:b[0]}", "{var:v[a]}", "{raw:s}", "{math:1%0}", "{math:{var:a}%{var:b}}",
+        for (const char *l : {"x", "{var:a}", "{var:v}", "{var:b[0]}", "{var:v[a]}", "{raw:s}", "{math:1%0}", "{math:1%0.5}", "{math:{var:a}%{var:h}}", "{math:{var:a}%{var:b}}",
                               "{math:{var:a}+1}", "{svar:p,{var:a},{math:1+1}}", "{if case=\"1\" true=\"{var:a}\" false=\"F\"}",
                               "{if case=\"{var:a}==1\" true=\"T\"}"}) {
             leaf.push_back(add(l));
